@@ -130,6 +130,18 @@ PROPS = {
              "thorough": {"runs": 300000, "max_wall_s": 1500, "minimise_s": 60}},
         ],
     },
+    "C14": {
+        "level": "exploration",
+        "rule": "one run = a history of 3-12 operations {create (bcrypt cost 4 / argon2), set-password, delete, AUTH PLAIN and AUTH LOGIN with the same credentials, AUTH PLAIN with an authorization identity, MAIL without authentication} over user names with case / width / NFC-NFD variants and passwords (empty, 71 and 80 bytes, non-ASCII, combining marks), auth_map in {none, identity, static alice->bob->carol, regexp}; credential-table lookup failures injected; every attempt is a real SMTP session against the submission endpoint followed by a message so that the recorded identity is observed at the target; half of the runs add a concurrent phase (one administrator, 1-2 clients) whose history, stamped with controller step numbers, is checked with porcupine against a per-account register",
+        "real": ["internal/endpoint/smtp (submission) + go-smtp server + go-sasl PLAIN", "internal/auth (SASLAuth, auth_map handling)", "internal/auth/sasllogin", "internal/auth/pass_table (bcrypt, argon2)", "internal/table (identity, static, regexp)", "internal/authz normalisation"],
+        "stub": ["credential storage (StubTable, module.MutableTable)", "delivery target", "SMTP clients", "network (simnet)"],
+        "assumptions": COMMON_ASSUME + ["the reference uses golang.org/x/text/secure/precis UsernameCaseMapped as the specified normal form of user names", "administration is performed by one task (the statement quantifies over histories, not concurrent administration)"],
+        "parts": [
+            {"pkg": "au", "world": "au",
+             "quick": {"runs": 1600, "max_wall_s": 150, "minimise_s": 20},
+             "thorough": {"runs": 120000, "max_wall_s": 1500, "minimise_s": 60}},
+        ],
+    },
 }
 
 # ---------------------------------------------------------------- manifest metadata
@@ -175,6 +187,10 @@ META = {
             "design_ref": "DESIGN.md section 6 (C16)",
             "level_text": "Seeded exploration of error values x stages; dynamic half of the statement only (reply conversion of endpoint and queue). The 'all literals in the source tree' half is a static property and is not claimed.",
             "level_note": "Only self-consistent error values are generated; helper-computed codes are reached where a world contains their call sites."},
+    "C14": {"technique": "deterministic simulation: account histories and real SMTP AUTH sessions against the submission endpoint, reference map as oracle, porcupine linearizability check of concurrent administration/authentication histories",
+            "design_ref": "DESIGN.md section 6 (C14)",
+            "level_text": "Seeded exploration of account histories with a map-based reference model; PLAIN and LOGIN are compared on identical credentials including the identity recorded for the session; concurrent histories are checked for linearizability (Unknown results are counted, never reported).",
+            "level_note": "Credential storage is a stub table; bcrypt cost 10 of SetUserPassword bounds the number of histories per minute."},
 }
 
 NOT_APPLICABLE = [
